@@ -49,6 +49,19 @@ def drive_comparisons(rec, rng, exhaustive):
             c = a + rng.choice([-1, 1]) * rng.randint(0, 3 * geps)
             x, y = Guarded(a, True), Guarded(c, True)
             x == y; x != y; x < y; x <= y; x > y; x >= y             # noqa
+        # each operator on its own, in both operand orders, straight after the statistics were reset: whichever comparison is the
+        # first to see a difference must leave it in the statistics (the contract reads them right after the call)
+        import operator
+        o = Options(dict(arithmetic='guarded', precision=p, guard=g))
+        for op in (operator.eq, operator.ne, operator.lt, operator.le, operator.gt, operator.ge):
+            for d in (1, geps // 2, geps - 1, geps, geps + 1, 3 * geps):
+                if d <= 0:
+                    continue
+                b = rng.randint(-S * 10, S * 10)
+                for lo_first in (True, False):
+                    Guarded.initialize(o)
+                    x, y = Guarded(b, True), Guarded(b + d, True)
+                    op(x, y) if lo_first else op(y, x)
 
 
 def guard0_ops(rng, ctx, exhaustive):
@@ -186,6 +199,11 @@ def quasi_exact_pair(ctx, rng):
             s['lines'] = [(m, r) for m, r in s['lines'] if r]
             s.update(nc=5, names=s['names'][:5], tie=[c for c in (s['tie'] or []) if c <= 5] or None, withdrawn=[], undeclared=[])
         gen.make_valid(s, rng)
+    if rng.random() < 0.15:
+        # a difference just inside the tolerance, by construction: the statistics must own up to it (then the pair is not evaluated),
+        # or the guarded count must still equal the exact one
+        s = gen.g13_near_tolerance(rng, og['precision'])
+        ctx.count('quasi_exact_pairs_with_a_difference_inside_the_tolerance')
     blt = gen.render(s)
     rg = do_count(blt, og, budget=stream.budget_for(ctx))
     # statistics belong to the class: read them before anything else initialises Guarded
